@@ -5,5 +5,6 @@ INVARIANT ExitInTable
 INVARIANT BatchIsUnionOfPairs
 INVARIANT ErrorsAbort
 INVARIANT PathsAgree
+INVARIANT FoldAgrees
 INVARIANT Emit
 CHECK_DEADLOCK FALSE
